@@ -241,6 +241,9 @@ def gen_ini(rng):
                 doc.append(["blank", rng.choice(["", "   "])])
             elif r < 0.40:
                 doc.append(["indented_comment", rng.choice(["   # c = 1", "  ; x: 2"])])
+            elif r < 0.50:
+                # a key without separator and value (my.cnf style): not an option unless the parser is told to allow it
+                doc.append(["barekey", rng.choice(["skip-grant-tables", "barekey", "no_value_here", k.strip() or "bk"]).replace("=", "").replace(":", "").replace(" ", "_").lstrip("[#;") or "bk"])
     return {"kind": "ini", "doc": doc}
 
 
@@ -446,6 +449,7 @@ def run_ini(spec, ctx):
     cur = None
     last_opt = None            # (section, key) of the option a following indented comment would attach to
     tainted = set()
+    nbare = 0
     for it in spec["doc"]:
         if it[0] == "section":
             text.append(it[2] % it[1])
@@ -466,6 +470,10 @@ def run_ini(spec, ctx):
                 tainted.add(last_opt)
         elif it[0] == "blank":
             text.append(it[1])
+        elif it[0] == "barekey":
+            text.append(it[1])
+            last_opt = None
+            nbare += 1
         else:
             text.append(it[1])
             last_opt = None
@@ -476,6 +484,7 @@ def run_ini(spec, ctx):
         ctx.violation("ini-document-rejected", {"document": text, "exc": repr(ex)[:300]})
         return
     ctx.count("ini_documents")
+    ctx.count("ini_keys_without_value", nbare)
     exp_sections = [s for s in model if s != "DEFAULT"]
     if p.sections() != exp_sections:
         ctx.violation("ini-sections-differ", {"document": text, "got": p.sections(), "expected": exp_sections})
